@@ -390,8 +390,6 @@ theorem no_mint_burn_supply_eq (b b' : Bank) (es : List Eff) (d : Denom) (h : b.
   rw [minted_zero_of_no_mint es d hm, burned_zero_of_no_burn es d hb] at f
   omega
 
-/-- total of a denomination over a list of accounts -/
-def totalOver (b : Bank) (A : List Addr) (d : Denom) : Nat := sumBy (fun a => b.get a d) A
 
 theorem sumBy_add {α : Type} (f g : α → Nat) (xs : List α) :
     sumBy (fun x => f x + g x) xs = sumBy f xs + sumBy g xs := by
@@ -424,6 +422,84 @@ theorem flows_balance_within (es : List Eff) (A : List Addr) (hA : A.Nodup)
       rw [h1, h2]
     | mint m d' amt => simp [Eff.within] at hw
     | burn m d' amt => simp [Eff.within] at hw
+
+/-- total of a denomination over a list of accounts -/
+def totalOver (b : Bank) (A : List Addr) (d : Denom) : Nat := sumBy (fun a => b.get a d) A
+
+/-! ### group flow: what a set of accounts gains and loses together -/
+
+/-- coins of `d` that effect `e` brings into the group `A` -/
+def Eff.inTo (A : List Addr) (d : Denom) : Eff → Nat
+  | .xfer _ dst d' amt => if A.contains dst ∧ d = d' then amt else 0
+  | .mint m d' amt => if A.contains m ∧ d = d' then amt else 0
+  | .burn _ _ _ => 0
+/-- coins of `d` that effect `e` takes out of accounts of the group `A` -/
+def Eff.outFrom (A : List Addr) (d : Denom) : Eff → Nat
+  | .xfer src _ d' amt => if A.contains src ∧ d = d' then amt else 0
+  | .mint _ _ _ => 0
+  | .burn m d' amt => if A.contains m ∧ d = d' then amt else 0
+
+theorem sumBy_indicator' (A : List Addr) (hA : A.Nodup) (x : Addr) (c : Nat) (p : Prop) [Decidable p] :
+    sumBy (fun a => if a = x ∧ p then c else 0) A = if A.contains x ∧ p then c else 0 := by
+  by_cases hx : x ∈ A
+  · rw [sumBy_indicator A hA x hx c p]
+    simp [hx]
+  · have hz : sumBy (fun a => if a = x ∧ p then c else 0) A = 0 := by
+      clear hA
+      induction A with
+      | nil => rfl
+      | cons y ys ih =>
+        simp only [sumBy_cons]
+        have hy : y ≠ x := fun e => hx (e ▸ List.mem_cons_self ..)
+        have hx' : ¬ x ∈ ys := fun h => hx (List.mem_cons_of_mem _ h)
+        rw [ih hx']; simp [hy]
+    rw [hz]; simp [hx]
+
+theorem sumBy_zero {α : Type} (xs : List α) : sumBy (fun _ => 0) xs = 0 := by
+  induction xs with
+  | nil => rfl
+  | cons x xs ih => simp [ih]
+
+theorem group_inflow (A : List Addr) (hA : A.Nodup) (d : Denom) (e : Eff) :
+    sumBy (fun a => e.inflow a d) A = e.inTo A d := by
+  cases e with
+  | xfer src dst d' amt => exact sumBy_indicator' A hA dst amt (d = d')
+  | mint m d' amt => exact sumBy_indicator' A hA m amt (d = d')
+  | burn m d' amt => exact sumBy_zero A
+
+theorem group_outflow (A : List Addr) (hA : A.Nodup) (d : Denom) (e : Eff) :
+    sumBy (fun a => e.outflow a d) A = e.outFrom A d := by
+  cases e with
+  | xfer src dst d' amt => exact sumBy_indicator' A hA src amt (d = d')
+  | mint m d' amt => exact sumBy_zero A
+  | burn m d' amt => exact sumBy_indicator' A hA m amt (d = d')
+
+theorem group_inflow_list (A : List Addr) (hA : A.Nodup) (d : Denom) (es : List Eff) :
+    sumBy (fun a => inflow es a d) A = sumBy (Eff.inTo A d) es := by
+  induction es with
+  | nil => simp [inflow, sumBy_zero]
+  | cons e es ih =>
+    simp only [inflow, sumBy_cons] at *
+    rw [sumBy_add, ih, group_inflow A hA d e]
+
+theorem group_outflow_list (A : List Addr) (hA : A.Nodup) (d : Denom) (es : List Eff) :
+    sumBy (fun a => outflow es a d) A = sumBy (Eff.outFrom A d) es := by
+  induction es with
+  | nil => simp [outflow, sumBy_zero]
+  | cons e es ih =>
+    simp only [outflow, sumBy_cons] at *
+    rw [sumBy_add, ih, group_outflow A hA d e]
+
+/-- **Group flow theorem.** The total a duplicate-free group of accounts holds changes by exactly
+what the effect list brings in and takes out. -/
+theorem group_flow (b b' : Bank) (es : List Eff) (A : List Addr) (hA : A.Nodup) (h : b.applyAll es = .ok b')
+    (d : Denom) :
+    totalOver b' A d + sumBy (Eff.outFrom A d) es = totalOver b A d + sumBy (Eff.inTo A d) es := by
+  have flow := Bank.applyAll_flow es b b' h
+  have hsum : sumBy (fun a => b'.get a d + outflow es a d) A = sumBy (fun a => b.get a d + inflow es a d) A :=
+    sumBy_congr _ _ _ (fun a => (flow a d).1)
+  rw [sumBy_add, sumBy_add, group_inflow_list A hA, group_outflow_list A hA] at hsum
+  exact hsum
 
 /-- **Conservation + frame** for effect lists that only move coins among `A`. -/
 theorem within_conserves (b b' : Bank) (es : List Eff) (A : List Addr) (hA : A.Nodup)
